@@ -19,9 +19,15 @@ def run(tier):
     with open(os.path.join(ws, "go.mod"), "a") as f:
         f.write("\nrequire github.com/quasilyte/go-ruleguard/dsl v0.3.22\n")
     pvf = os.path.join(ws, "pv_dyn.json")
-    json.dump({"dyn": {"ruleguard": {"rules": os.path.join(vlib.REPO, "checkers/rules/rules.go")}}}, open(pvf, "w"))
+    os.makedirs(os.path.join(ws, "urules"), exist_ok=True)
+    import shutil
+    for nm in ("hostile_rules", "comment_rules"):
+        shutil.copy(os.path.join(vlib.VERIF, "props", nm + ".go.txt"), os.path.join(ws, "urules", nm + ".go"))
+    json.dump({"dyn": {"ruleguard": {"rules": os.path.join(vlib.REPO, "checkers/rules/rules.go")}},
+               "dyn-hostile": {"ruleguard": {"rules": os.path.join(ws, "urules", "hostile_rules.go")}},
+               "dyn-comment": {"ruleguard": {"rules": os.path.join(ws, "urules", "comment_rules.go")}}}, open(pvf, "w"))
     gjobs = [j for j in jobs if j[2] == "G"]
-    scanlib.run_scan(res, vw, [(ws, gjobs[0][1], "G-dyn")], ["dyn"], {"C07"}, extra_args=["-pvfile", pvf, "-only", "ruleguard"], cwd=ws)
+    scanlib.run_scan(res, vw, [(ws, gjobs[0][1], "G-dyn")], ["dyn", "dyn-hostile", "dyn-comment"], {"C07"}, extra_args=["-pvfile", pvf, "-only", "ruleguard"], cwd=ws)
     infos = _infos(vw)
     fired = res.sets.get("checkers_fired", set())
     silent = sorted(i["name"] for i in infos if i["name"] not in fired)
